@@ -22,7 +22,9 @@ import gendocs
 import vlib
 from vlib import Evidence, MachineryError, Verdict, run_tlc, tlc_must_pass, tlc_judge
 
-MB = ["“", "”", "—", "–", "é", "§", "¶", "’", "ü", "…"]
+MB = ["“", "”", "—", "–", "é", "§", "¶", "’", "ü", "…",
+      # every UTF-8 length, and the extreme continuation bytes 0x80 / 0xBF in each position
+      "¿", "ÿ", "п", "\u0080", "\ufeff", "\ufffd", "\u0800", "😀", "\U0010ffff", "𐀀"]
 
 
 def texts(rnd, thorough):
@@ -36,6 +38,15 @@ def texts(rnd, thorough):
             if f[i] == " " or f[i - 1] == " " or not f[i].isalnum():
                 mb = MB[(i + len(f)) % len(MB)]
                 out.append(f[:i] + mb + f[i:])
+    # punctuation runs (ASCII and multi-byte quotation marks mixed) glued to supra / id. / stop words
+    runs_after = [".”)", ".’”", ",”", "”.", ".”", ";”]", "’”)", "”)—", "…”"]
+    runs_before = ["(“‘", "“(", "(“", "‘“", "[“", "—“"]
+    for w in ("Bar, supra", "Twombly, supra, at 10", "Id.", "Id. at 5", "see also", "See", "cert. denied", "citing", "aff'd"):
+        for ra in runs_after:
+            out.append(f"Foo v. Bar, 1 U.S. 1 (1999). {w}{ra} 2 F.2d 2 (2005)")
+        for rb in runs_before:
+            out.append(f"Foo v. Bar, 1 U.S. 1 (1999) {rb}{w} 2 F.2d 2 (2005)")
+            out.append(f"{rb}{w}{runs_after[len(rb) % len(runs_after)]}")
     docs = list(gendocs.pairs())
     rnd.shuffle(docs)
     for d in docs[: (3000 if thorough else 500)]:
